@@ -74,6 +74,56 @@ pub fn gen_tree(r: &mut Rng, n: usize, panic_nodes: usize, consistent: bool) -> 
     nodes
 }
 
+/// a broad bound-consistent tree: the root has 2-3 inner children with 7-10 (one of them 17-24) leaves each (plus leaves of its own), so that 16 and more
+/// subproblems are pending at once; leaf scores spread, inner scores = best leaf below (+ 0..2)
+pub fn gen_broad_tree(r: &mut Rng) -> Vec<TNode> {
+    let ninner = r.range(2, 3);
+    let mut nodes: Vec<TNode> = vec![TNode::No];
+    let mut root_children = Vec::new();
+    let mut best_all: Option<u32> = None;
+    let mut inner_ids = Vec::new();
+    for _ in 0..ninner {
+        inner_ids.push(nodes.len());
+        root_children.push(nodes.len());
+        nodes.push(TNode::No);
+    }
+    for _ in 0..r.range(0, 3) {
+        let s = r.below(1000) as u32;
+        root_children.push(nodes.len());
+        nodes.push(TNode::Feas(s));
+        best_all = Some(best_all.map_or(s, |b| b.max(s)));
+    }
+    for id in inner_ids {
+        // one of the inner nodes is very broad: 17-24 children pending at once below a single node
+        let nleaf = if id == 1 { r.range(17, 24) } else { r.range(7, 10) };
+        let mut cs = Vec::new();
+        let mut best: Option<u32> = None;
+        for _ in 0..nleaf {
+            cs.push(nodes.len());
+            if r.chance(1, 8) {
+                nodes.push(TNode::No);
+            } else {
+                let s = r.below(1000) as u32;
+                nodes.push(TNode::Feas(s));
+                best = Some(best.map_or(s, |b| b.max(s)));
+            }
+        }
+        if r.chance(1, 2) {
+            cs.reverse();
+        }
+        let sc = best.unwrap_or(0).saturating_add(r.below(3) as u32);
+        nodes[id] = TNode::Inf(cs, sc);
+        best_all = match (best_all, best) {
+            (Some(a), Some(b)) => Some(a.max(b)),
+            (a, None) => a,
+            (None, b) => b,
+        };
+    }
+    r.shuffle(&mut root_children);
+    nodes[0] = TNode::Inf(root_children, best_all.unwrap_or(0).saturating_add(r.below(3) as u32));
+    nodes
+}
+
 pub struct TRun {
     pub events: Vec<Ev>,
     pub result: Option<(usize, u32)>,
@@ -259,13 +309,20 @@ pub fn run(plan: Plan, shards: usize, outdir: &str, replay: Option<String>) {
             let n = r.range((n.max(1) + 1) / 2, n.max(1));
             let npanic = if plan.panics { r.range(1, 2) } else { 0 };
             let consistent = plan.panics || !r.chance(1, 6);
-            let tree = gen_tree(&mut r, n, npanic, consistent);
+            // every 8th tree (without failing nodes): a broad tree with 16 and more pending subproblems at once
+            let broad = !plan.panics && ti % 8 == 7;
+            let tree = if broad { gen_broad_tree(&mut r) } else { gen_tree(&mut r, n, npanic, consistent) };
+            let consistent = consistent || broad;
+            let n = tree.len();
+            if broad {
+                *hist.entry(String::from("broad_tree")).or_insert(0) += 1;
+            }
             *hist.entry(format!("nodes:{:02}", n)).or_insert(0) += 1;
             if !consistent {
                 *hist.entry(String::from("tree_not_bound_consistent")).or_insert(0) += 1;
             }
             for si in 0..plan.scheds_per_tree {
-                let k = if si == 0 { 1 } else { r.range(if plan.panics { 2 } else { 1 }, plan.max_k) };
+                let k = if si == 0 { 1 } else if broad { r.range(2, plan.max_k.max(2)) } else { r.range(if plan.panics { 2 } else { 1 }, plan.max_k) };
                 let sp = r.chance(1, 3);
                 let seed = r.next();
                 match si % 3 {
